@@ -168,6 +168,11 @@ func alphabet() []request {
 			st := &fakes.ItemServerStream{Ctx: bg}
 			return nil, n.Search.Search(&pb.SearchRequest{DatasetId: c.D, Query: v, K: 2}, st)
 		})
+		// the node-to-node search RPC is as public as the others
+		add("SearchPartitions(D,[existing],"+vn+",k=2)", func(n *fakes.Node, c *ctxT) (interface{}, error) {
+			st := &fakes.ItemServerStream{Ctx: bg}
+			return nil, n.Search.SearchPartitions(&pb.SearchPartitionsRequest{DatasetId: c.D, PartitionIds: [][]byte{c.P}, Query: v, K: 2}, st)
+		})
 	}
 	for _, idn := range []string{"existing", "unknown", "15-bytes", "17-bytes", "empty"} {
 		idn := idn
